@@ -421,10 +421,12 @@ impl RaftStorage<ClientRequest, ClientResponse> for FileStore {
             .send(StateApplyRequest::ApplySnapshot { snapshot })
             .await??;
         //清除废弃日志
+        //delete_through == None: the local log ends before the snapshot, "all entries of the log are to be deleted"
+        //(RaftStorage contract); keeping them left an open log file that refused the entry behind the snapshot
         let split_off_index = if let Some(v) = delete_through {
             v + 1
         } else {
-            0
+            u64::MAX
         };
         self.log_manager
             .send(RaftLogManagerRequest::SplitOff(split_off_index))
